@@ -40,10 +40,23 @@ Alias(m) == "a_" \o m                 \* require m as a_m
 IGet(m)  == "i_" \o m \o "_get"       \* require m import [m_get as i_m_get,
 ISt(m)   == "i_" \o m \o "_st"        \*     _m_st as i_m_st, m_top]
 
+JGet(m)  == "j_" \o m \o "_get"       \* ... import [m_get as i_m_get, m_get as j_m_get, m_top]
+
 Forms == <<"plain", "as", "imp", "unq">>
+\* forms used by importer programs only (module files keep to Forms: their
+\* reader functions need a binding to reach the required module through):
+\*   imp0  require m import []                       - the empty list
+\*   impd  require m import [m_get as i_m_get, m_get as j_m_get, m_top]
+\*                                                   - one symbol listed twice
+IForms == Forms \o <<"imp0", "impd">>
+ImpForms == {"imp", "imp0", "impd"}
 
 \* the import list of the "imp" form for module m: pairs <<symbol, alias>>
 ImpList(m) == {<<NGet(m), IGet(m)>>, <<NSt(m), ISt(m)>>, <<NTop(m), NTop(m)>>}
+ImpListOf(form, m) ==
+  CASE form = "imp0" -> {}
+    [] form = "impd" -> {<<NGet(m), IGet(m)>>, <<NGet(m), JGet(m)>>, <<NTop(m), NTop(m)>>}
+    [] OTHER         -> ImpList(m)
 
 \* the name through which code that required d with `form` reaches d
 BindName(form, d) == CASE form = "plain" -> d
@@ -89,6 +102,18 @@ FS10 ==
   ("cyca"   :> File(<<SDef("cyca_x"), SReq("cycb", "plain"), SDef("cyca_y")>>, {NSt("cyca")})) @@
   ("cycb"   :> File(<<SReq("cyca", "plain"), SDef("cycb_y")>>, {NSt("cycb")}))
 
+\* Bundled modules (src/ckl/modules/*.ckl) are found whatever the case of the
+\* name used (nodes.py: "modules/" + basename.lower()); the start-up code
+\* requires Sys (modules/base.ckl), so `sys` is loaded in every interpreter
+\* before the first command.  Their contents are not modelled (a module
+\* object of a bundled module is observed for what it is and for which
+\* instance it shows, not for its members).
+Spell == ("Sys" :> "sys") @@ ("Stat" :> "stat") @@ ("STAT" :> "stat")
+Canon(sp) == IF sp \in DOMAIN Spell THEN Spell[sp] ELSE sp     \* spelling -> file
+BundledFS == ("sys" :> File(<< >>, {})) @@ ("stat" :> File(<< >>, {}))
+Bundled == DOMAIN BundledFS
+Preloaded == {"sys"}
+
 \* generated file systems of C11: gen is a sequence of edges [m, d, form, poke]
 \* (module m requires d with form, optionally bumping d at load time); every
 \* module of Ids exists, has one public and one private definition before its
@@ -126,17 +151,20 @@ SymKind(fs, m, n) ==
 PubSyms(fs, vars) == {n \in DOMAIN vars : ~IsPrivate(fs, n)}
 Exposed(fs, vars) == {n \in PubSyms(fs, vars) : vars[n].k # "mod"}
 
-\* the set of names `require d <form>` adds to / rebinds in the importer scope
-Denotes(fs, form, d, vars) ==
-  CASE form = "plain" -> {d}
-    [] form = "as"    -> {Alias(d)}
-    [] form = "imp"   -> {p[2] : p \in {q \in ImpList(d) : q[1] \in PubSyms(fs, vars)}}
-    [] OTHER          -> PubSyms(fs, vars)
+\* the set of names `require nm <form>` adds to / rebinds in the importer
+\* scope (nm = the name as spelled in the statement; it differs from the
+\* module's identity d only for bundled modules, see Canon)
+Denotes(fs, form, nm, vars) ==
+  CASE form = "plain"    -> {nm}
+    [] form = "as"       -> {Alias(nm)}
+    [] form \in ImpForms -> {p[2] : p \in {q \in ImpListOf(form, nm) : q[1] \in PubSyms(fs, vars)}}
+    [] OTHER             -> PubSyms(fs, vars)
 
-\* and the value each of them gets
+\* and the value each of them gets: every listed alias of a symbol gets that
+\* symbol, the module object is the one instance of d
 BoundValue(fs, form, d, vars, name) ==
   CASE form \in {"plain", "as"} -> ModV(d)
-    [] form = "imp" -> vars[(CHOOSE p \in ImpList(d) : p[2] = name /\ p[1] \in DOMAIN vars)[1]]
+    [] form \in ImpForms -> vars[(CHOOSE p \in ImpListOf(form, d) : p[2] = name /\ p[1] \in DOMAIN vars)[1]]
     [] OTHER        -> vars[name]
 
 =============================================================================
